@@ -304,3 +304,50 @@ func (charsFam) Check(vars map[string]any) Result {
 	r.Observed = r.Expected
 	return r
 }
+
+// lines family (C15): state = text, starts (line-start offsets), lc (<<line, col>> per offset)
+type linesFam struct{}
+
+func init() { Families["lines"] = func() Family { return linesFam{} } }
+
+func (linesFam) Check(vars map[string]any) (r Result) {
+	text, ok := Bytes(vars["text"])
+	starts, ok2 := vars["starts"].([]any)
+	lc, ok3 := vars["lc"].([]any)
+	if !ok || !ok2 || !ok3 {
+		return Result{Skip: true}
+	}
+	r = Result{Input: fmt.Sprintf("%q", text), Expected: tlaval.Format(vars["starts"]) + " " + tlaval.Format(vars["lc"]), Nontrivial: len(starts) > 1, Sub: "lines"}
+	defer func() {
+		if x := recover(); x != nil {
+			r.OK = false
+			r.Observed = fmt.Sprintf("PANIC %v", x)
+			r.Site = "lines:panic"
+		}
+	}()
+	got := formula.ComputeLineStarts(text)
+	obsStarts := make([]any, len(got))
+	for i, g := range got {
+		obsStarts[i] = int64(g)
+	}
+	obsLC := make([]any, 0, len(text)+1)
+	obsLC2 := make([]any, 0, len(text)+1)
+	for off := 0; off <= len(text); off++ {
+		p := formula.PositionToLineAndCharacter(text, off)
+		obsLC = append(obsLC, []any{int64(p.Line), int64(p.Column)})
+		q := formula.GetLineAndCharacterOfPosition(text, got, off)
+		obsLC2 = append(obsLC2, []any{int64(q.Line), int64(q.Column)})
+	}
+	r.Observed = tlaval.Format(obsStarts) + " " + tlaval.Format(obsLC)
+	switch {
+	case !tlaval.Equal(starts, obsStarts):
+		r.Site = "lines:linestarts"
+	case !tlaval.Equal(lc, obsLC):
+		r.Site = "lines:position-to-line-col"
+	case !tlaval.Equal(lc, obsLC2):
+		r.Site = "lines:line-col-of-position"
+	default:
+		r.OK = true
+	}
+	return r
+}
